@@ -185,13 +185,24 @@ func Resume(
 		if err != nil {
 			return err
 		}
-		idx.InsertNoReplace(c, uint64(sectionOffset))
 
 		// Seek to the next section by skipping the block.
 		// The section length includes the CID, so subtract it.
-		if sectionOffset, err = v1r.Seek(int64(length)-int64(n), io.SeekCurrent); err != nil {
+		nextOffset, err := v1r.Seek(int64(length)-int64(n), io.SeekCurrent)
+		if err != nil {
 			return err
 		}
+		// Seeking past the end of the file succeeds, so read the last byte of the section to make
+		// sure that all of it is there: a section cut short must not be indexed.
+		var last [1]byte
+		if _, err := v1r.ReadAt(last[:], nextOffset-1); err != nil {
+			if err == io.EOF {
+				err = io.ErrUnexpectedEOF
+			}
+			return fmt.Errorf("cannot resume from file with truncated section at offset %d: %w", sectionOffset, err)
+		}
+		idx.InsertNoReplace(c, uint64(sectionOffset))
+		sectionOffset = nextOffset
 	}
 	// Seek to the end of last skipped block where the writer should resume writing.
 	_, err = dataWriter.Seek(sectionOffset, io.SeekStart)
